@@ -221,7 +221,13 @@ class Runner:
         return tr.n
 
     # -- one scenario --------------------------------------------------------
-    def run(self, sc, trace=None):
+    def run(self, sc):
+        """Runs the scenario in a forked child (identical pristine process image for every run)."""
+        from .common import run_isolated
+
+        return run_isolated(self.run_here, (sc,), timeout=300.0)
+
+    def run_here(self, sc, trace=None):
         """Returns dict(result='ok'|'violation', ...). Never raises for property violations."""
         old_out, old_err = sys.stdout, sys.stderr
         sys.stdout, sys.stderr = self.out, self.err
@@ -289,9 +295,16 @@ class Runner:
             if any(x is not None for x in last):
                 info["states"].add(digest_obj(st))
         info["ops_executed"] = len(sc["ops"])
-        return {"result": "ok", "log": step_log, "info": info}
+        return {"result": "ok", "log": step_log, "info": self._fin(info)}
+
+    def _fin(self, info):
+        info["states"] = sorted(info["states"])
+        info["crash_sites"] = sorted(list(x) for x in info["crash_sites"])
+        info["stats"] = self.stats
+        return info
 
     def _viol(self, v, step, sc, step_log, info):
+        self._fin(info)
         return {"result": "violation", "vclass": v.vclass, "detail": v.detail, "step": step, "log": step_log,
                 "info": info}
 
